@@ -1,10 +1,208 @@
 import Driver.Common
-open Lean Drv
+import RxModel.OpsElem
+import RxModel.OpsSlice
+open Lean Drv Ops
+
+/-!
+# drv_ops — line-protocol driver for the L1 operator models (C05, C07, C08)
+
+`{"op":"c05","name":<operator>,"mode":"sub"|"raw","tsub":200,"input":[[t,notif],..], …params}`
+→ `{"out":[[t,notif],..],"esc":[[t,name],..]}` or `{"ctor":<exception name>}`.
+`mode = "sub"`: what the subscriber's callbacks receive (`lag = false`);
+`mode = "raw"`: the handlers' downstream calls with the disposal never arriving (`lag = true`).
+Every output carries the time of the input whose handler call produced it (`tsub` for what is
+emitted while subscribing).
+-/
 
 namespace DrvOps
 
-def handle (op : String) (_j : Json) : Except String Json := do
+def notifToJson : Notif Val → Json
+  | .next v => Json.arr #[.str "N", valToJson v]
+  | .error e => Json.arr #[.str "E", .str e]
+  | .completed => Json.arr #[.str "C"]
+
+def notifOfJson : Json → Except String (Notif Val)
+  | .arr #[.str "N", v] => do pure (.next (← valOfJson v))
+  | .arr #[.str "E", .str e] => pure (.error e)
+  | .arr #[.str "C"] => pure .completed
+  | j => throw s!"bad notification {j.compress}"
+
+def timedOfJson : Json → Except String (Int × Notif Val)
+  | .arr #[t, n] => do pure ((← t.getInt?), (← notifOfJson n))
+  | j => throw s!"bad timed notification {j.compress}"
+
+/-- notifications as values (`materialize` output / `dematerialize` input): `(".N", v)`, `(".E", name)`, `(".C",)` -/
+def notifToVal : Notif Val → Val
+  | .next v => .tup [.str ".N", v]
+  | .error e => .tup [.str ".E", .str e]
+  | .completed => .tup [.str ".C"]
+
+def notifOfVal : Val → Notif Val
+  | .tup [.str ".N", v] => .next v
+  | .tup [.str ".E", .str e] => .error e
+  | .tup [.str ".C"] => .completed
+  | _ => .error "not-a-notification"
+
+def timedJson (t : Int) (n : Notif Val) : Json := Json.arr #[.num (JsonNumber.fromInt t), notifToJson n]
+
+def runTimed {α β} (lag : Bool) (op : Op α β) (cin : Val → α) (cout : β → Val) (tsub : Int)
+    (inp : List (Int × Notif Val)) : Json :=
+  let r := op.run lag (inp.map (fun p => p.2.map cin))
+  let times := tsub :: inp.map (·.1)
+  let rows := times.zip r
+  let out := rows.flatMap fun (t, so) => ((if lag then so.raw else so.vis).map fun n => timedJson t (n.map cout))
+  let esc := rows.filterMap fun (t, so) => so.esc.map fun e => Json.arr #[.num (JsonNumber.fromInt t), .str e]
+  Json.mkObj [("out", .arr out.toArray), ("esc", .arr esc.toArray)]
+
+def ctorErr (e : String) : Json := Json.mkObj [("ctor", .str e)]
+
+/-- optional callback table (`null` = argument not given) -/
+def getFnOpt (j : Json) (k : String) : Except String (Option FnTab) :=
+  match j.getObjVal? k with
+  | .ok .null => pure none
+  | .ok v => do pure (some (← fnOfJson v))
+  | .error _ => pure none
+
+def truthyRes (r : Res) : Except Err Bool := r.map Val.truthy
+def pred1 (f : FnTab) : Val → Except Err Bool := fun v => truthyRes (f.call v)
+def pred2 (f : FnTab) : Val → Nat → Except Err Bool := fun v i => truthyRes (f.call (.tup [v, .int i]))
+
+/-- `mapper(*values)` on this value domain -/
+def starred (f : Option FnTab) (v : Val) : Except Err Val :=
+  match f with
+  | none => .ok v
+  | some f =>
+    match v with
+    | .tup [x] => f.call x
+    | .tup xs => f.call (.tup xs)
+    | .lst [x] => f.call x
+    | .lst xs => f.call (.tup xs)
+    | _ => .error "TypeError"
+
+/-- `x[key]` -/
+def pluckGet (key : Val) (x : Val) : Except Err Val :=
+  match x with
+  | .dct kvs =>
+    match kvs.find? (fun (k, _) => Val.pyEq k key) with
+    | some (_, v) => .ok v
+    | none => .error "KeyError"
+  | _ => .error "TypeError"
+
+def pyEqCmp (cmp : Option FnTab) : Val → Val → Bool := fun a b =>
+  match cmp with
+  | none => Val.pyEq a b
+  | some c => match c.call (.tup [a, b]) with | .ok v => v.truthy | .error _ => false
+
+def pyEqCmpE (cmp : Option FnTab) : Val → Val → Except Err Bool := fun a b =>
+  match cmp with
+  | none => .ok (Val.pyEq a b)
+  | some c => truthyRes (c.call (.tup [a, b]))
+
+def keyFn (key : Option FnTab) : Val → Except Err Val := fun v =>
+  match key with
+  | none => .ok v
+  | some k => k.call v
+
+instance : PyVal Val := ⟨Val.truthy, Val.isNone⟩
+
+def handleC05 (j : Json) : Except String Json := do
+  let name ← getStr j "name"
+  let mode ← getStr j "mode"
+  let lag := mode == "raw"
+  let tsub ← getInt j "tsub"
+  let inp ← (← getArr j "input").mapM timedOfJson
+  let idv : Val → Val := id
+  let go {α β} (op : Op α β) (cin : Val → α) (cout : β → Val) : Json := runTimed lag op cin cout tsub inp
+  match name with
+  | "map" => pure (go (mapOp (← getFn j "f").call) idv idv)
+  | "map_indexed" =>
+    let f ← getFn j "f"
+    pure (go (mapIndexedOp (fun x i => f.call (.tup [x, .int i]))) idv idv)
+  | "starmap" => pure (go (mapOp (starred (← getFnOpt j "f"))) idv idv)
+  | "pluck" => pure (go (mapOp (pluckGet (← getVal j "key"))) idv idv)
+  | "filter" => pure (go (filterOp (pred1 (← getFn j "p"))) idv idv)
+  | "filter_indexed" => pure (go (filterIndexedOp ((← getFnOpt j "p").map pred2)) idv idv)
+  | "take" =>
+    match take? (α := Val) (← getInt j "n") with
+    | .error e => pure (ctorErr e)
+    | .ok op => pure (go op idv idv)
+  | "skip" =>
+    match skip? (α := Val) (← getInt j "n") with
+    | .error e => pure (ctorErr e)
+    | .ok op => pure (go op idv idv)
+  | "take_while" => pure (go (takeWhileOp (pred1 (← getFn j "p")) (← getBool j "inclusive")) idv idv)
+  | "take_while_indexed" => pure (go (takeWhileIndexedOp (pred2 (← getFn j "p")) (← getBool j "inclusive")) idv idv)
+  | "skip_while" => pure (go (skipWhileOp (pred1 (← getFn j "p"))) idv idv)
+  | "skip_while_indexed" => pure (go (skipWhileIndexedOp (pred2 (← getFn j "p"))) idv idv)
+  | "distinct" => pure (go (distinctOp (keyFn (← getFnOpt j "key")) (pyEqCmp (← getFnOpt j "cmp"))) idv idv)
+  | "distinct_until_changed" =>
+    pure (go (distinctUntilChangedOp (keyFn (← getFnOpt j "key")) (pyEqCmpE (← getFnOpt j "cmp"))) idv idv)
+  | "pairwise" => pure (go (pairwiseOp (α := Val)) idv (fun p => .tup [p.1, p.2]))
+  | "start_with" => pure (go (startWithOp (← getVals j "args")) idv idv)
+  | "default_if_empty" => pure (go (defaultIfEmptyOp (← getVal j "dflt")) idv idv)
+  | "ignore_elements" => pure (go (ignoreElementsOp (α := Val)) idv idv)
+  | "take_last" => pure (go (takeLastOp (α := Val) (← getInt j "n")) idv idv)
+  | "skip_last" => pure (go (skipLastOp (α := Val) (← getInt j "n")) idv idv)
+  | "skip_last_asis" => pure (go (skipLastAsIsOp (α := Val) (← getInt j "n")) idv idv)
+  | "take_last_buffer" => pure (go (takeLastBufferOp (α := Val) (← getInt j "n")) idv Val.lst)
+  | "element_at" =>
+    match elementAt? (α := Val) (← getInt j "n") none with
+    | .error e => pure (ctorErr e)
+    | .ok op => pure (go op idv idv)
+  | "element_at_or_default" =>
+    match elementAt? (α := Val) (← getInt j "n") (some (← getVal j "dflt")) with
+    | .error e => pure (ctorErr e)
+    | .ok op => pure (go op idv idv)
+  | "find" => pure (go (findOp (pred2 (← getFn j "p"))) idv (fun o => o.getD .none))
+  | "find_index" => pure (go (findIndexOp (pred2 (← getFn j "p"))) idv Val.int)
+  | "materialize" => pure (go (materializeOp (α := Val)) idv notifToVal)
+  | "dematerialize" => pure (go (dematerializeOp (α := Val)) notifOfVal idv)
+  | "materialize_dematerialize" => pure (go ((materializeOp (α := Val)).comp dematerializeOp) idv idv)
+  | "slice" =>
+    let fixed := (j.getObjValAs? Bool "fixed").toOption.getD true
+    match Slice.pipeline fixed (← getOptInt j "start") (← getOptInt j "stop") (← getOptInt j "step") with
+    | .error e => pure (ctorErr e)
+    | .ok stages => pure (go (Slice.pipeOp (α := Val) stages) idv idv)
+  | _ => throw s!"unknown operator {name}"
+
+/-! ### C07 -/
+
+def optIntJson : Option Int → Json
+  | none => .null
+  | some i => .num (JsonNumber.fromInt i)
+
+def endOfJson (j : Json) : Except String End :=
+  match j with
+  | .arr #[.str "C"] => pure .completed
+  | .arr #[.str "E", .str e] => pure (.error e)
+  | .null => pure .open
+  | _ => throw "bad end"
+
+/-- `{"op":"slice","start":a,"stop":b,"step":c,"xs":[..],"end":["C"]|["E",name]|null,"fixed":bool}` →
+`{"pipe":[notif..],"stages":[..],"py":[vals]}` or `{"ctor":"TypeError"}` -/
+def handleSlice (j : Json) : Except String Json := do
+  let start ← getOptInt j "start"
+  let stop ← getOptInt j "stop"
+  let step ← getOptInt j "step"
+  let xs ← getVals j "xs"
+  let e ← endOfJson ((j.getObjVal? "end").toOption.getD .null)
+  let fixed := (j.getObjValAs? Bool "fixed").toOption.getD true
+  match Slice.pipeline fixed start stop step with
+  | .error err => pure (ctorErr err)
+  | .ok stages =>
+    let raw := outSeq xs e
+    let vis := visible ((Slice.pipeOp (α := Val) stages).run false raw)
+    let ev := Slice.evalStages stages xs
+    pure (Json.mkObj [
+      ("pipe", .arr (vis.map notifToJson).toArray),
+      ("stages", .arr (stages.map (fun s => Json.str s.name)).toArray),
+      ("eval", .arr (ev.map valToJson).toArray),
+      ("py", .arr ((Slice.pySlice xs start stop (step.getD 1)).map valToJson).toArray)])
+
+def handle (op : String) (j : Json) : Except String Json := do
   match op with
+  | "c05" => handleC05 j
+  | "slice" => handleSlice j
   | _ => throw s!"unknown op {op}"
 
 end DrvOps
